@@ -243,6 +243,28 @@ def raw_count_mutations(rng, data):
     return out
 
 
+def count_vector_bombs():
+    """Tiny synthetic headers in which ONE count is large but not absurd (2^24 .. 2^31) and the vector that depends on
+    it is stored in its shortest form (the all-defined byte, or no vector at all): the parser must notice that the
+    header cannot hold that many entries before it builds lists of that length."""
+    out = []
+    for n in (2 ** 24, 2 ** 27, 2 ** 31):
+        num = b"\xff" + struct.pack("<Q", n)
+        # one folder with one Copy coder; NumUnpackStream = n; CRC property with the all-defined byte
+        streams = bytes([0x04, 0x06, 0x00, 0x01, 0x09, 0x01, 0x00, 0x07, 0x0B, 0x01, 0x00, 0x01, 0x01, 0x00, 0x0C, 0x01, 0x00, 0x08, 0x0D]) + num
+        out.append(("bomb-numunpack-crc-alldefined-%d" % n, seal(b"x", b"\x01" + streams + bytes([0x0A, 0x01]))))
+        # the same without any CRC property: the reader fills in 'undefined' for every stream
+        out.append(("bomb-numunpack-nocrc-%d" % n, seal(b"x", b"\x01" + streams + bytes([0x00, 0x00, 0x00]))))
+        # n packed streams with an all-defined CRC vector
+        out.append(("bomb-numpack-crc-%d" % n, seal(b"x", b"\x01" + bytes([0x04, 0x06, 0x00]) + num + bytes([0x09]))))
+        # n folders
+        out.append(("bomb-numfolders-%d" % n, seal(b"x", b"\x01" + bytes([0x04, 0x07, 0x0B]) + num + bytes([0x00]))))
+        # n files with an all-defined attribute vector / time vector
+        out.append(("bomb-attrs-%d" % n, seal(b"", b"\x01\x05" + num + bytes([0x15, 0x02, 0x01, 0x00, 0x00, 0x00]))))
+        out.append(("bomb-mtime-%d" % n, seal(b"", b"\x01\x05" + num + bytes([0x14, 0x02, 0x01, 0x00, 0x00, 0x00]))))
+    return out
+
+
 def external_mutations(data):
     """Set the 'external' byte of Names / Attributes / folder definitions to 1, with every data index."""
     payload, hdr = split_archive(data)
@@ -312,6 +334,8 @@ def run(ctx):
                 add(nm + ":" + lab, m, pw, seq=[rng.choice(["extractall", "testzip", "test"]), "extractall"])
     for lab, m in external_mutations(bases[1][1]):
         add("Copy:" + lab, m, None)
+    for lab, m in count_vector_bombs():
+        add("synthetic:" + lab, m, None, seq=["getnames"])
     for fam, lab, m in coder_property_sweep(rng):
         add(fam + ":" + lab, m, None, seq=[rng.choice(["extractall", "testzip"]), "extractall"])
     # degenerate inputs
@@ -360,7 +384,7 @@ def _sig(kind, lab):
     if kind == "died":
         # which codec family the base archive uses identifies the native library that crashed
         return "C05:interpreter_killed:" + (lab.split(":", 1)[0] if ":" in lab else "-")
-    if kind == "memory" and (part.startswith("raw-") or part.startswith("struct")):
+    if kind == "memory" and (part.startswith("raw-") or part.startswith("struct") or part.startswith("bomb-")):
         return "C05:count_bomb"
     if kind == "spin" and part.startswith("raw-"):
         return "C05:count_spin"
